@@ -92,18 +92,73 @@ fn bind_rx(addr: SocketAddr) -> std::io::Result<StdUdp> {
     Ok(s.into())
 }
 
-/// Receiver ports come from a process-wide counter below the ephemeral range,
-/// so that a closed receiver socket can always be re-bound on the same port.
+/// Receiver ports.
+///
+/// A world closes and re-opens receiver sockets (send-failure faults), and while one is closed
+/// its port is free as far as the kernel is concerned: whoever binds it next receives what the
+/// world keeps sending there. So ports are handed out under two reservations:
+/// * across processes (checks may run side by side): each process owns one *slice* of the port
+///   range 10000..30000 for its lifetime, claimed by an exclusive `flock` on a file under
+///   `/tmp/srtla-verif-ports/`;
+/// * inside the process: a port stays in `RESERVED` from the moment an `Env` gets it until that
+///   `Env` is dropped, whether its socket is currently open or not.
 static NEXT_PORT: std::sync::atomic::AtomicU32 = std::sync::atomic::AtomicU32::new(0);
+static RESERVED: std::sync::Mutex<Option<std::collections::HashSet<u16>>> = std::sync::Mutex::new(None);
+
+pub const SLICES: u32 = 40;
+const SLICE_LEN: u32 = 500;
+
+/// The slice of the port space this process owns (claimed once; `None`: none could be locked).
+pub fn port_slice() -> Option<u32> {
+    static SLICE: std::sync::OnceLock<Option<u32>> = std::sync::OnceLock::new();
+    *SLICE.get_or_init(|| {
+        use std::os::fd::IntoRawFd;
+        let dir = std::path::Path::new("/tmp/srtla-verif-ports");
+        let _ = std::fs::create_dir_all(dir);
+        let start = std::process::id() % SLICES;
+        for i in 0..SLICES {
+            let n = (start + i) % SLICES;
+            let Ok(f) = std::fs::OpenOptions::new().create(true).write(true).truncate(false).open(dir.join(format!("slice-{n}.lock"))) else { continue };
+            let fd = f.into_raw_fd(); // kept open (and locked) until the process exits
+            if unsafe { libc::flock(fd, libc::LOCK_EX | libc::LOCK_NB) } == 0 {
+                return Some(n);
+            }
+            unsafe { libc::close(fd) };
+        }
+        None
+    })
+}
 
 fn fresh_rx() -> (StdUdp, SocketAddr) {
+    let slice = port_slice();
     loop {
         let k = NEXT_PORT.fetch_add(1, std::sync::atomic::Ordering::Relaxed);
-        let base = 12_000 + (std::process::id() % 97) * 200;
-        let port = (base + k % 19_000) % 20_000 + 10_000;
-        let addr = SocketAddr::new(IpAddr::V4(Ipv4Addr::LOCALHOST), port as u16);
+        let port = match slice {
+            Some(n) => 10_000 + n * SLICE_LEN + k % SLICE_LEN,
+            // no slice could be locked (more than 40 checks at once): the old pid-spread scheme
+            None => (12_000 + (std::process::id() % 97) * 200 + k % 19_000) % 20_000 + 10_000,
+        } as u16;
+        {
+            let mut r = RESERVED.lock().unwrap();
+            if !r.get_or_insert_with(Default::default).insert(port) {
+                continue;
+            }
+        }
+        let addr = SocketAddr::new(IpAddr::V4(Ipv4Addr::LOCALHOST), port);
         if let Ok(s) = bind_rx(addr) {
             return (s, addr);
+        }
+        RESERVED.lock().unwrap().as_mut().unwrap().remove(&port);
+    }
+}
+
+impl Drop for Env {
+    fn drop(&mut self) {
+        self.rx.clear();
+        if let Some(r) = RESERVED.lock().unwrap().as_mut() {
+            for a in &self.rx_addr {
+                r.remove(&a.port());
+            }
         }
     }
 }
@@ -915,7 +970,9 @@ pub const GLUE_EXPECTED: [&str; 22] = [
 /// `run_sender_with_config`'s body (from the initial housekeeping on) and
 /// compare it with what the mirror implements. `Err` = binding stale.
 pub fn glue_fingerprint() -> Result<Vec<String>, String> {
-    let path = "/repo/src/sender/mod.rs";
+    // VERIF_REPO: only for experiments against a scratch copy of the repository (tools/scratch_try.sh)
+    let path = std::env::var("VERIF_REPO").map(|r| format!("{r}/src/sender/mod.rs")).unwrap_or_else(|_| "/repo/src/sender/mod.rs".to_string());
+    let path = path.as_str();
     let text = std::fs::read_to_string(path).map_err(|e| format!("cannot read {path}: {e}"))?;
     let start = text
         .find("// Main loop - run housekeeping frequently")
